@@ -542,7 +542,7 @@ func (x *Exec) eventKeysOfContract(fc *FuncContract) []string {
 		switch e := e.(type) {
 		case *ECall:
 			switch e.Fn {
-			case "calls", "callarg", "callres":
+			case "calls", "callarg", "callres", "panicked":
 				if len(e.Args) > 0 {
 					k := callKeyOf(e.Args[0])
 					if !seen[k] {
@@ -2309,7 +2309,29 @@ func (x *Exec) raise(p *Path, k *Cont) {
 		return
 	}
 	p.trace = append(p.trace, "panic")
-	x.runDefers(p, func(p *Path) { k.pan(p) }, &Cont{ret: func(p *Path, _ []Val) { k.pan(p) }, pan: k.pan})
+	fr := p.top()
+	was := p.panicking
+	p.panicking = true
+	p.recovered = false
+	after := func(p *Path) {
+		if p.recovered {
+			// a deferred call recovered the panic: the function returns normally with its result variables
+			// (modelled as zero values: none of the verified functions that recover has named results set before)
+			p.recovered = false
+			p.panicking = was
+			p.trace = append(p.trace, "recovered")
+			var res []Val
+			rs := fr.fn.Signature.Results()
+			for i := 0; i < rs.Len(); i++ {
+				res = append(res, x.e.zeroVal(rs.At(i).Type()))
+			}
+			k.ret(p, res)
+			return
+		}
+		p.panicking = was
+		k.pan(p)
+	}
+	x.runDefers(p, after, &Cont{ret: func(p *Path, _ []Val) { after(p) }, pan: func(p *Path) { p.panicking = was; k.pan(p) }})
 }
 
 func (x *Exec) runDefers(p *Path, then func(p *Path), k *Cont) {
@@ -2340,6 +2362,20 @@ func (x *Exec) checkWiring(p *Path, fn *ssa.Function, fc *FuncContract) {
 		}
 		if f, ok := v.(*ssa.Function); ok {
 			return f.Name()
+		}
+		if mc, ok := v.(*ssa.MakeClosure); ok {
+			// function literal or bound method value; a bound method is named with its receiver expression
+			if f, ok := mc.Fn.(*ssa.Function); ok {
+				n := f.Name()
+				if strings.HasSuffix(n, "$bound") && len(mc.Bindings) == 1 {
+					if u, ok := mc.Bindings[0].(*ssa.UnOp); ok {
+						if g, ok := u.X.(*ssa.Global); ok {
+							return g.Name() + "." + strings.TrimSuffix(n, "$bound")
+						}
+					}
+				}
+				return n
+			}
 		}
 		return ""
 	}
